@@ -124,7 +124,7 @@ func (in *Interp) formatValue(verb byte, a Value) *Term {
 		}
 		// error / Stringer
 		if verb == 's' || verb == 'v' || verb == 'w' || verb == 'q' {
-			if _, isT := i.V.(*Term); !isT {
+			if _, isT := i.V.(*Term); !isT && hasMethods(i.T) {
 				if m := in.E.Prog.LookupMethod(i.T, nil, "Error"); m != nil && m.Signature.Params().Len() == 0 {
 					return in.errText(i)
 				}
@@ -217,6 +217,14 @@ func (in *Interp) sprintf(format *Term, args []Value) *Term {
 	return in.tb.Concat(parts...)
 }
 
+func hasMethods(t types.Type) bool {
+	if p, ok := t.(*types.Pointer); ok {
+		t = p.Elem()
+	}
+	_, ok := t.(*types.Named)
+	return ok
+}
+
 func variadic(v Value) []Value {
 	s, _ := v.([]Value)
 	return s
@@ -233,7 +241,7 @@ func (in *Interp) constStr(v Value, what string) string {
 
 // toTerm flattens a harness-level scalar (possibly boxed in an interface) to a term.
 func (in *Interp) toTerm(v Value) *Term {
-	switch x := v.(type) {
+	switch x := in.force(v).(type) {
 	case *Term:
 		return x
 	case Iface:
@@ -453,7 +461,14 @@ func (in *Interp) cover(label string) {
 
 // ---------- registered stubs ----------
 
+var extraStubs []func(e *Engine)
+
 func registerStubs(e *Engine) {
+	defer func() {
+		for _, f := range extraStubs {
+			f(e)
+		}
+	}()
 	S := e.Stubs
 	ret := func(v Value) (Value, bool) { return v, true }
 
